@@ -46,14 +46,19 @@ def interval_of_guard(cond_term, param_local, fx):
             t = t[1]
         return t[0] == "local" and t[1] == param_local
 
-    def rec(t):
+    def rec(t, neg=False):
         nonlocal lo, hi
-        if t[0] == "bin" and t[1] == "And":
-            rec(t[2])
-            rec(t[3])
+        if t[0] == "un" and t[1] == "Not":
+            rec(t[2], not neg)
+            return
+        if t[0] == "bin" and ((t[1] == "And" and not neg) or (t[1] == "Or" and neg)):
+            rec(t[2], neg)
+            rec(t[3], neg)
             return
         if t[0] == "bin" and t[1] in ("Lt", "Le", "Gt", "Ge"):
             op, l, r = t[1], t[2], t[3]
+            if neg:
+                op = {"Lt": "Ge", "Le": "Gt", "Gt": "Le", "Ge": "Lt"}[op]
             if is_param(r) and const(l) is not None:
                 # c op n  ==> n op' c
                 op = {"Lt": "Gt", "Le": "Ge", "Gt": "Lt", "Ge": "Le"}[op]
@@ -69,7 +74,25 @@ def interval_of_guard(cond_term, param_local, fx):
                 elif op == "Ge":
                     lo = c if lo is None else max(lo, c)
                 return
-        others.append(t)
+        # `(a..=b).contains(&n)` / `(a..b).contains(&n)`
+        if t[0] == "call" and isinstance(t[1], str) and t[1].split("<")[0].split("::")[-1] == "contains" or (t[0] == "call" and isinstance(t[1], str) and F.strip_generics(t[1]).endswith("::contains")):
+            rng, arg = (t[2] + (None, None))[:2]
+            a_ = arg
+            while isinstance(a_, tuple) and a_[0] in ("ref", "deref") and len(a_) > 1:
+                a_ = a_[1]
+            bounds = None
+            if isinstance(rng, tuple) and rng[0] == "call" and "RangeInclusive" in str(rng[1]) and len(rng[2]) == 2:
+                bounds = (const(rng[2][0]), const(rng[2][1]))
+            elif isinstance(rng, tuple) and rng[0] == "struct" and "Range" in str(rng[1]) + str(rng[2]):
+                fl = dict(rng[3])
+                if "start" in fl and "end" in fl:
+                    e_ = const(fl["end"])
+                    bounds = (const(fl["start"]), (e_ if "Inclusive" in str(rng[1]) + str(rng[2]) else (e_ - 1 if e_ is not None else None)))
+            if bounds and None not in bounds and a_ is not None and is_param(a_) and not neg:
+                lo = bounds[0] if lo is None else max(lo, bounds[0])
+                hi = bounds[1] if hi is None else min(hi, bounds[1])
+                return
+        others.append(("un", "Not", t) if neg else t)
 
     rec(cond_term)
     return lo, hi, others
@@ -98,6 +121,26 @@ def ctor_guard(fx, body):
                         if s.get("s") == "Let" and "init" in s:
                             T.bind_pattern(s["pat"], T.term(s["init"], env, mut), env)
                 return n_local, T.term(n["cond"], env, mut)
+    # early-return form: `if REJECT { return Err(..) }` (one or more) followed by a final Ok(..): accepted = none of them holds
+    blk = v.get("block") if v.get("k") == "Block" else None
+    if blk and blk.get("expr") is not None:
+        tail_ok = any(c.get("k") == "Call" and (F.path_def(c["f"]) or "").endswith("Ok") for c, _ in F.walk(blk["expr"]))
+        env = T.Env()
+        rejects = []
+        for s_ in blk["stmts"]:
+            if s_.get("s") == "Let" and "init" in s_:
+                T.bind_pattern(s_["pat"], T.term(s_["init"], env, mut), env)
+            e_ = s_.get("e") if s_.get("s") in ("Expr", "Semi") else None
+            while isinstance(e_, dict) and e_.get("k") in ("DropTemps", "Use"):
+                e_ = e_["e"]
+            if isinstance(e_, dict) and e_.get("k") == "If" and "else" not in e_ and T.diverges(e_["then"]) and any(c.get("k") == "Call" and (F.path_def(c["f"]) or "").endswith("Err") for c, _ in F.walk(e_["then"])):
+                rejects.append(T.term(e_["cond"], env, mut))
+        if tail_ok and rejects:
+            acc = None
+            for r_ in rejects:
+                nr = ("un", "Not", r_)
+                acc = nr if acc is None else ("bin", "And", acc, nr)
+            return n_local, acc
     return None
 
 
@@ -289,10 +332,10 @@ def check(fx, rep, tier):
         rep.oblige(empty and not has_call_as_byte, "R10.2", "nop-encode-empty", F.loc(b["span"]), "the padding no-op must encode to nothing")
     if push_type in overriders:
         b = overriders[push_type]
-        revs = sum(1 for c, _ in F.calls(b["hir"]["value"]) if (F.callee_def(c) or "").endswith("Iterator::rev"))
+        revs = sum(1 for c, _ in F.calls(b["hir"]["value"]) if (F.callee_def(c) or "").split("::")[-1] in ("rev", "reverse"))
         asb = sum(1 for c, _ in F.calls(b["hir"]["value"]) if (F.callee_def(c) or "").endswith("as_byte"))
         newb = fx.body(push_type + "::new")
-        revs_new = sum(1 for c, _ in F.calls(newb["hir"]["value"]) if (F.callee_def(c) or "").endswith("Iterator::rev")) if newb else -1
+        revs_new = sum(1 for c, _ in F.calls(newb["hir"]["value"]) if (F.callee_def(c) or "").split("::")[-1] in ("rev", "reverse")) if newb else -1
         rep.oblige(
             revs == 1 and revs_new == 1 and asb == 1,
             "R10.2",
